@@ -19,3 +19,12 @@ def replay_nets(p,repo):
   if not r['failed']: print("the contract holds: NOT reproduced"); return 0
   for f in r['failed'][:6]: print("FAILED     :",f)
   return 1
+
+def replay_mem(p,repo):
+  if repo not in sys.path: sys.path.insert(0,repo)
+  from zoo import memcheck
+  print("check      : memory responses and final image against the sequential specification"); print("config     :",p['cfg'],"seed",p['seed'])
+  r=memcheck.run_config(repo,p['seed'],p['cfg'])
+  if not r: print("the contract holds: NOT reproduced"); return 0
+  for f in r: print("FAILED     :",f)
+  return 1
